@@ -9,9 +9,10 @@
     * the old condition `ltNext2` holds, or
     * there is no `>` in the rest of the text (lines joined by "\n" - a tag may span lines): `a <b c`, `x<y z`,
       `1 <a href`, a final `<b`, `a<=/...@home` (`noGt`), or
-    * a letter follows and (`ltWord`) its tag name `[A-Za-z0-9-]*` is followed by something other than whitespace, `>`
-      or `/>`, the run of scheme characters `[A-Za-z0-9+.-]*` is not followed by `:` and the run of e-mail local-part
-      characters is not followed by `@`: `if i<n; then j>0`, `a <b, c> d`, or
+    * a letter follows and (`ltWord`) after its tag name `[A-Za-z0-9-]*` and the whitespace behind it neither `>` nor
+      `/>` follows, nor - if there is whitespace - a character that can begin an attribute name (`[A-Za-z_:]`); the
+      run of scheme characters `[A-Za-z0-9+.-]*` is not followed by `:` and the run of e-mail local-part characters
+      is not followed by `@`: `if i<n; then j>0`, `a <b, c> d`, `a<b 50% > c`, or
     * `/` follows, not followed by a letter, and the run of e-mail local-part characters is not followed by `@`
       (`ltSlash`): `</3 > x`.
   What is NOT accepted, rightly: `x<y and y>z` (`<y and y>` is an open tag with the attributes `and`, `y`).
@@ -288,23 +289,31 @@ theorem autoLinkBody_gt (r : Str) (h : '>' ∉ r) : autoLinkBody r = none := by
           · cases e
         · cases e
 
-/-- what follows the tag name `[A-Za-z][A-Za-z0-9-]*`: the end of the text, `/` not followed by `>`, or a character
-    that is neither whitespace (an attribute or `\s*/?>` could follow) nor `>` -/
-def afterTagName : Str → Bool
+/-- first character of a text, if any, is no attribute-name start `[A-Za-z_:]` -/
+def noAttrStart : Str → Bool
   | [] => true
-  | d :: x => if d == '/' then x.head? != some '>' else !ws d && d != '>'
+  | d :: _ => !nameStart d
 
-/-- `<` + letter, and neither a tag nor an autolink can follow: the tag name is not followed by whitespace, `>` or `/>`;
+/-- the text does not begin with `>` or `/>` -/
+def noTagEnd : Str → Bool
+  | [] => true
+  | d :: x => if d == '/' then x.head? != some '>' else d != '>'
+
+/-- what follows the tag name `[A-Za-z][A-Za-z0-9-]*` lets `(?:\s+attribute)*\s*/?>` fail at once: after the run of
+    whitespace (if it is empty no attribute can follow; otherwise the next character must not start an attribute
+    name) neither `>` nor `/>` follows -/
+def afterTagName (r1 : Str) : Bool :=
+  ((span ws r1).1.isEmpty || noAttrStart (span ws r1).2) && noTagEnd (span ws r1).2
+
+/-- `<` + letter, and neither a tag nor an autolink can follow: what follows the tag name satisfies `afterTagName`;
     the run of scheme characters is not followed by `:`; the run of e-mail local-part characters is not followed by `@` -/
 def ltWord : Str → Bool
   | [] => false
   | c :: r => isAlpha c && afterTagName (span (fun d => isAlnum d || d == '-') r).2 &&
       (span schemeChar r).2.head? != some ':' && (span localChar (c :: r)).2.head? != some '@'
 
-theorem span_head_false (p : Char → Bool) (d : Char) (r : Str) (h : p d = false) : span p (d :: r) = ([], d :: r) := by
-  simp [span, h]
-
-theorem attrs_no_ws (fuel : Nat) (r : Str) (h : (span ws r).1 = []) : attrs fuel r = r := by
+theorem attrs_stop (fuel : Nat) (r : Str) (h : ((span ws r).1.isEmpty || noAttrStart (span ws r).2) = true) :
+    attrs fuel r = r := by
   cases fuel with
   | zero => rfl
   | succ f =>
@@ -313,8 +322,16 @@ theorem attrs_no_ws (fuel : Nat) (r : Str) (h : (span ws r).1 = []) : attrs fuel
     rename_i w r' h1
     rw [h1] at h
     simp only at h
-    subst h
-    simp
+    split
+    · rfl
+    · rename_i hw
+      split
+      · rename_i c x
+        split
+        · rename_i hn
+          simp [hw, noAttrStart, hn] at h
+        · rfl
+      · rfl
 
 theorem openTag_word (c : Char) (r : Str) (h : afterTagName (span (fun d => isAlnum d || d == '-') r).2 = true) :
     openTag ('<' :: c :: r) = none := by
@@ -323,30 +340,26 @@ theorem openTag_word (c : Char) (r : Str) (h : afterTagName (span (fun d => isAl
   split
   · rfl
   · generalize (span (fun d => isAlnum d || d == '-') r).2 = r1 at h
-    cases r1 with
-    | nil =>
-      rw [attrs_no_ws _ _ rfl]
-      simp [span]
+    simp only [afterTagName, Bool.and_eq_true] at h
+    rw [attrs_stop _ _ h.1]
+    have h2 := h.2
+    generalize (span ws r1).2 = r3 at h2
+    cases r3 with
+    | nil => rfl
     | cons d x =>
-      simp only [afterTagName] at h
-      split at h
+      simp only [noTagEnd] at h2
+      split at h2
       · rename_i hd
         simp only [beq_iff_eq] at hd
         subst hd
-        have hw : span ws ('/' :: x) = ([], '/' :: x) := span_head_false _ _ _ (by decide)
-        rw [attrs_no_ws _ _ (by rw [hw])]
-        simp only [hw]
         cases x with
         | nil => rfl
         | cons e y =>
-          have : e ≠ '>' := by simpa using h
+          have : e ≠ '>' := by simpa using h2
           simp [this]
       · rename_i hd
-        simp only [Bool.and_eq_true, Bool.not_eq_eq_eq_not, Bool.not_true, bne_iff_ne, ne_eq] at h
-        have hw : span ws (d :: x) = ([], d :: x) := span_head_false _ _ _ h.1
-        rw [attrs_no_ws _ _ (by rw [hw])]
-        simp only [hw]
         have hd' : d ≠ '/' := by simpa using hd
+        have hd2 : d ≠ '>' := by simpa using h2
         split
         · rename_i y heq
           split at heq
@@ -354,9 +367,8 @@ theorem openTag_word (c : Char) (r : Str) (h : afterTagName (span (fun d => isAl
             simp only [List.cons.injEq] at hz
             exact absurd hz.1 hd'
           · simp only [List.cons.injEq] at heq
-            exact absurd heq.1 h.2
+            exact absurd heq.1 hd2
         · rfl
-
 theorem autoLinkBody_word (c : Char) (r : Str) (h1 : (span schemeChar r).2.head? ≠ some ':')
     (h2 : (span localChar (c :: r)).2.head? ≠ some '@') : autoLinkBody (c :: r) = none := by
   cases e : autoLinkBody (c :: r) with
@@ -787,20 +799,21 @@ theorem C14_bracket_amp_covered :
 /-- accepted by `inertBody5`, rejected by `inertBody4`: a `<` directly before a letter, `/`, `!`, `?` or an e-mail
     local part, when no `>` follows; a word after `<` that cannot be a tag in spite of a later `>`; `</3` -/
 example : [L "a <b c", L "x<y z", L "1 <a href", L "a <b", L "see <http://x.y and <!-- or <?php", L "a<=/...@home1)x",
-    L "if i<n; then j>0", L "a <b, c> d", L "x </3 > y", L "a <b\nc d"].map
-    (fun s => (inertBody5 s, inertBody4 s)) = List.replicate 10 (true, false) := by decide +kernel
+    L "if i<n; then j>0", L "a <b, c> d", L "x </3 > y", L "a <b\nc d", L "a<b 50% > c", L "a <b\n-> c"].map
+    (fun s => (inertBody5 s, inertBody4 s)) = List.replicate 12 (true, false) := by decide +kernel
 
 /-- rejected: tags, autolinks, comments, and `x<y and y>z` (`<y and y>` IS an open tag with the attributes `and`,
     `y`); a tag spanning two lines; what `inertBody4` rejects for another reason stays rejected -/
 example : [L "x<y and y>z", L "a <b> c", L "a </b> c", L "<http://x.y>", L "<a@b.c>", L "a <!-- x --> b", L "a <?x?> b",
-    L "a <!X y> b", L "a <b c='x<y' d> e", L "a <b\nc d> e", L "x <b/> y", L "*a <b*", L "a <b `c`", L "a <b &amp;"].map
-    inertBody5 = List.replicate 14 false := by decide +kernel
+    L "a <!X y> b", L "a <b c='x<y' d> e", L "a <b\nc d> e", L "x <b/> y", L "x <b /> y", L "a <b c > d", L "*a <b*", L "a <b `c`",
+    L "a <b &amp;"].map inertBody5 = List.replicate 16 false := by decide +kernel
 
 example : htmlOf (L "a <b c\n") = .ok (L "<p>a &lt;b c</p>\n") := by decide +kernel
 example : htmlOf (L "1 <a href\n") = .ok (L "<p>1 &lt;a href</p>\n") := by decide +kernel
 example : htmlOf (L "a] (b)\n") = .ok (L "<p>a] (b)</p>\n") := by decide +kernel
 example : htmlOf (L "5 < 6 & 7 > 2\n") = .ok (L "<p>5 &lt; 6 &amp; 7 &gt; 2</p>\n") := by decide +kernel
 example : htmlOf (L "if i<n; then j>0\n") = .ok (L "<p>if i&lt;n; then j&gt;0</p>\n") := by decide +kernel
+example : htmlOf (L "a<b 50% > c\n") = .ok (L "<p>a&lt;b 50% &gt; c</p>\n") := by decide +kernel
 /-- … whereas these are markup (raw HTML passes through; an autolink becomes a link) -/
 example : htmlOf (L "x<y and y>z\n") = .ok (L "<p>x<y and y>z</p>\n") := by decide +kernel
 example : htmlOf (L "a <b\nc d> e\n") = .ok (L "<p>a <b\nc d> e</p>\n") := by decide +kernel
